@@ -63,7 +63,20 @@ struct CounterGuard(Arc<AtomicUsize>);
 
 impl Drop for CounterGuard {
     fn drop(&mut self) {
+        #[cfg(compio_verif)]
+        compio_log::verif::point("pool.w.exit", Arc::as_ptr(&self.0) as u64, std::thread::panicking() as u64);
         self.0.fetch_sub(1, Ordering::AcqRel);
+    }
+}
+
+/// Verification hook: announces the end of a job (also when the job unwinds).
+#[cfg(compio_verif)]
+struct VerifJobGuard(u64);
+
+#[cfg(compio_verif)]
+impl Drop for VerifJobGuard {
+    fn drop(&mut self) {
+        compio_log::verif::point("pool.w.done", self.0, std::thread::panicking() as u64);
     }
 }
 
@@ -73,9 +86,19 @@ fn worker(
     timeout: Duration,
 ) -> impl FnOnce() {
     move || {
+        #[cfg(compio_verif)]
+        let verif_pool = Arc::as_ptr(&counter) as u64;
+        #[cfg(compio_verif)]
+        compio_log::verif::point("pool.w.inc", verif_pool, 0);
         counter.fetch_add(1, Ordering::AcqRel);
         let _guard = CounterGuard(counter);
+        #[cfg(compio_verif)]
+        compio_log::verif::point("pool.w.recv", verif_pool, 0);
         while let Ok(f) = receiver.recv_timeout(timeout) {
+            #[cfg(compio_verif)]
+            let _verif_job = VerifJobGuard(verif_pool);
+            #[cfg(compio_verif)]
+            compio_log::verif::point("pool.w.run", verif_pool, 0);
             f.run()
         }
     }
@@ -110,10 +133,18 @@ impl AsyncifyPool {
     /// limit has been reached, it will return an error with the original
     /// dispatchable.
     pub fn dispatch<D: Dispatchable>(&self, f: D) -> Result<(), DispatchError<D>> {
+        #[cfg(compio_verif)]
+        compio_log::verif::point("pool.d.try", Arc::as_ptr(&self.counter) as u64, 0);
         match self.sender.try_send(Box::new(f) as BoxedDispatchable) {
             Ok(_) => Ok(()),
             Err(e) => match e {
                 TrySendError::Full(f) => {
+                    #[cfg(compio_verif)]
+                    compio_log::verif::point(
+                        "pool.d.load",
+                        Arc::as_ptr(&self.counter) as u64,
+                        self.counter.load(Ordering::Acquire) as u64,
+                    );
                     if self.thread_limit == 0 {
                         panic!("the thread pool is needed but no worker thread is running");
                     } else if self.counter.load(Ordering::Acquire) >= self.thread_limit {
@@ -122,11 +153,15 @@ impl AsyncifyPool {
                             Box::from_raw(Box::into_raw(f).cast())
                         }))
                     } else {
+                        #[cfg(compio_verif)]
+                        compio_log::verif::point("pool.d.spawn", Arc::as_ptr(&self.counter) as u64, 0);
                         std::thread::spawn(worker(
                             self.receiver.clone(),
                             self.counter.clone(),
                             self.recv_timeout,
                         ));
+                        #[cfg(compio_verif)]
+                        compio_log::verif::point("pool.d.send", Arc::as_ptr(&self.counter) as u64, 0);
                         self.sender.send(f).expect("the channel should not be full");
                         Ok(())
                     }
